@@ -164,7 +164,8 @@ class C02(Base):
                 acc.nontrivial(T.subj.fp, k, T.key())
             elif len(kinds) == 1:
                 acc.count("single_kind:" + next(iter(kinds)))
-        if T.gate == G_FWBLOCK:
+        if T.gate == G_FWBLOCK or (T.gate == G_NOPIVOT and
+                                   d["kind"] == EXPLOIT):
             # why blocked: subnet rule or host deny-list?
             sp, m = T.subj.spec, T.subj.model
             t = d["target"]
@@ -182,7 +183,7 @@ class C02(Base):
                    d["service"] in sp.fw_sets.get((t[0], a[0]), ())]
             if rev and not via_rule:
                 acc.count("fwblock:allowed_only_in_reverse_direction")
-            if len(acc.samples) < 3:
+            if len(acc.samples) < 3 and rev and not via_rule:
                 acc.sample(_sample_of(T))
 
 
